@@ -588,7 +588,42 @@ size_t varintBitmapEncode(const varintBitmap *vb, uint8_t *buffer) {
 }
 
 varintBitmap *varintBitmapDecode(const uint8_t *buffer, size_t len) {
-    (void)len; /* Unused, but kept for API consistency */
+    /* Validate the header against the declared length before touching the
+     * payload: type byte + cardinality, then the container's own size */
+    if (len < 1 + sizeof(uint32_t)) {
+        return NULL;
+    }
+    {
+        uint32_t declared;
+        memcpy(&declared, buffer + 1, sizeof(uint32_t));
+        const size_t payload = len - (1 + sizeof(uint32_t));
+        switch (buffer[0]) {
+        case VARINT_BITMAP_ARRAY:
+            if (declared > payload / sizeof(uint16_t)) {
+                return NULL;
+            }
+            break;
+        case VARINT_BITMAP_BITMAP:
+            if (payload < VARINT_BITMAP_BITMAP_SIZE) {
+                return NULL;
+            }
+            break;
+        case VARINT_BITMAP_RUNS: {
+            uint32_t numRuns;
+            if (payload < sizeof(uint32_t)) {
+                return NULL;
+            }
+            memcpy(&numRuns, buffer + 1 + sizeof(uint32_t), sizeof(uint32_t));
+            if (numRuns >
+                (payload - sizeof(uint32_t)) / (2 * sizeof(uint16_t))) {
+                return NULL;
+            }
+            break;
+        }
+        default:
+            return NULL; /* unknown container type */
+        }
+    }
 
     varintBitmap *vb = malloc(sizeof(varintBitmap));
     if (!vb) {
